@@ -11,16 +11,18 @@ PROP = 'C14'
 MANIFEST = {
     'engine': 'E3-sock',
     'level': 'fault_enumeration',
-    'technique': 'Hypothesis-generated connection-level fault sequences (refuse, reset, black-hole until timeout, half-open after host loss, stale connection replaced and its late FIN/RST, restarts, partitions, node drop/add) on 2-4 real TCPTransport objects over a '
+    'technique': 'Hypothesis-generated connection-level fault sequences (refuse, reset, black-hole until timeout, half-open after host loss, stale connection replaced and its late FIN/RST, restarts, partitions, node drop/add) on 2-4 real TCPTransport objects plus 0-2 read-only observers (transport without own address) over a '
                  'simulated socket kernel and poller under virtual time; ghost-tagged messages; bounded-time reconnection oracle',
     'text': 'Real TCPTransport/TcpConnection/TcpServer code runs on a fake `socket` module and poller (pysyncobj.tcp_connection.socket, tcp_server.socket, monotonicTime replaced). Every message carries its true sender. '
             'At all times: a message delivered as coming from node X was sent by X, X is a current member of the receiver (never a non-member or a node removed with dropNode); send() returns True only on a CONNECTED connection object. '
             'After the faults stop, within SYN timeout + connectionRetryTime + slack of virtual time every pair of members has exactly one established kernel connection that both transports\' connection maps point to, both sides were told '
-            '"connected", send() returns True and a probe sent each way is delivered exactly once as coming from its sender.',
+            '"connected", send() returns True and a probe sent each way is delivered exactly once as coming from its sender. Read-only observers: every message delivered under a read-only id comes from an observer process (never attributed to a member), '
+            'one id never carries two processes, an id is announced before it delivers and never reused; after the faults stop every voter knows exactly one announced id per observer, backed by the one established kernel connection, and probes '
+            'voter->observer (tagged with the intended observer) and observer->voter arrive exactly once.',
     'note': 'The kernel model (pvf/sock/kernel.py) is the trusted base: instant in-order delivery, FIN on close, RST, black-hole, half-open, keepalive only if the socket options were set, SYN timeout 63 s. Periodic sends (as SyncObj heartbeats do) drive timeout detection.',
 }
 LEVEL = 'fault_enumeration'
-RULE = ('case = (2-4 nodes, keepalive on/off, connectionRetryTime, step list <=120 of tick/advance/send/refuse-next/blackhole-next/reset/blackhole/vanish+restart/clean restart/partition/heal/dropnode/addnode). '
+RULE = ('case = (2-4 nodes, 0-2 read-only observers, keepalive on/off, connectionRetryTime, step list <=120 of tick/advance/send/refuse-next/blackhole-next/reset/blackhole/vanish+restart/clean restart/partition/heal/dropnode/addnode). '
         'non-trivial = a stale connection was replaced by a new incoming one, or a black-holed/half-open connection was detected by timeout, keepalive or RST; distinct = distinct case digests')
 ASSUMPTIONS = ['kernel model as described in pvf/sock/kernel.py', 'every node sends to every peer periodically (as the Raft layer does)']
 
@@ -61,6 +63,7 @@ class Node(object):
         self.connected = set()
         self.received = []
         self.events = []
+        self.ro = False
         self.start()
 
     def start(self):
@@ -72,19 +75,55 @@ class Node(object):
                            recvBufferSize=h.rbuf)
         self.so = StubSyncObj(h.kern, self.name, conf)
         h.kern.current = self.name
-        self.selfnode = TCPNode(h.addr[self.name])
+        self.selfnode = None if self.ro else TCPNode(h.addr[self.name])      # read-only node: no own address, dials every voter
         others = [TCPNode(h.addr[m]) for m in sorted(self.members)]
         self.tr = TCPTransport(self.so, self.selfnode, others)
         self.tr.setOnMessageReceivedCallback(self.on_msg)
         self.tr.setOnNodeConnectedCallback(lambda n: self.on_conn(n, True))
         self.tr.setOnNodeDisconnectedCallback(lambda n: self.on_conn(n, False))
+        self.tr.setOnReadonlyNodeConnectedCallback(lambda n: self.on_ro(n, True))
+        self.tr.setOnReadonlyNodeDisconnectedCallback(lambda n: self.on_ro(n, False))
         self.connected = set()
+        self.ro_connected = {}      # node id -> Node object of the read-only peers this transport announced (and has not reported gone)
+        self.ro_ids = {}            # node id -> ghost name of the process whose messages arrived under that id
         self.alive = True
+
+    def on_ro(self, node, up):
+        h = self.h
+        if getattr(node, 'address', None) is not None or self.ro:
+            h.V('readonly-notification-for-a-member', '%s was told read-only node %r %s' % (self.name, node, 'connected' if up else 'disconnected'))
+            return
+        if up:
+            if node.id in self.ro_connected or node.id in self.ro_ids:
+                h.V('readonly-id-reused', '%s: id %r announced for a second read-only connection' % (self.name, node.id))
+            self.ro_connected[node.id] = node
+            h.counters['readonly-connected'] += 1
+        else:
+            if node.id not in self.ro_connected:
+                h.V('readonly-disconnect-without-connect', '%s: read-only id %r reported gone but was never announced' % (self.name, node.id))
+            self.ro_connected.pop(node.id, None)
+            h.counters['readonly-disconnected'] += 1
 
     def on_msg(self, node, m):
         h = self.h
+        if getattr(node, 'address', None) is None:
+            # attributed to a read-only peer (plain Node with a per-transport counter id)
+            self.received.append((('ro', node.id), m))
+            src = m.get('from') if isinstance(m, dict) else None
+            if self.ro or src not in h.ro_names:
+                h.V('message-attributed-to-wrong-sender', '%s received %r as coming from read-only id %r' % (self.name, m, node.id))
+            elif node.id not in self.ro_connected:
+                h.V('message-from-unannounced-readonly-node', '%s received %r under read-only id %r which is not announced as connected (%r)' % (
+                    self.name, m, node.id, sorted(self.ro_connected)))
+            elif self.ro_ids.setdefault(node.id, src) != src:
+                h.V('readonly-id-shared-by-two-senders', '%s: id %r carried messages of %s and of %s' % (self.name, node.id, self.ro_ids[node.id], src))
+            if isinstance(m, dict) and 'probe' in m:
+                h.probes_got[(m['from'], self.name, m['probe'])] += 1
+            return
         sender = h.addr2name.get(getattr(node, 'address', None))
         self.received.append((sender, m))
+        if isinstance(m, dict) and m.get('for') is not None and m['for'] != self.name:
+            h.V('message-for-another-readonly-node', '%s received %r' % (self.name, m))
         if not isinstance(m, dict) or m.get('from') != sender:
             h.V('message-attributed-to-wrong-sender', '%s received %r as coming from %s' % (self.name, m, sender))
         elif sender not in self.members:
@@ -127,13 +166,16 @@ class Harness(object):
         self.detected = False
         self.seq = 0
         self.nodes = {}
-        for n in self.names:
+        self.ro_names = ['r%d' % i for i in range(case.get('ro', 0))]
+        self.all_names = self.names + self.ro_names
+        for n in self.all_names:
             nd = Node.__new__(Node)
             nd.h, nd.name = self, n
+            nd.ro = n in self.ro_names
             nd.members = set(m for m in self.names if m != n)
             nd.connected, nd.received, nd.events = set(), [], []
             self.nodes[n] = nd
-        for n in self.names:
+        for n in self.all_names:
             self.nodes[n].start()
 
     def V(self, sig, detail):
@@ -179,10 +221,33 @@ class Harness(object):
             self.detected = True
         return r
 
+    def send_ro(self, a, rid, probe=None):
+        """voter a -> the read-only peer it knows under id rid"""
+        from pysyncobj.tcp_connection import CONNECTION_STATE
+        nd = self.nodes[a]
+        node = nd.ro_connected.get(rid)
+        if not nd.alive or node is None:
+            return None
+        self.seq += 1
+        m = {'from': a, 'n': self.seq, 'for': nd.ro_ids.get(rid)}
+        if probe is not None:
+            m['probe'] = probe
+        r = self.call(a, nd.tr.send, node, m)
+        if r:
+            conn = nd.tr._connections.get(node)
+            if conn is None or conn.state != CONNECTION_STATE.CONNECTED:
+                self.V('send-true-on-dead-connection', '%s.send(read-only %s) returned True but the connection object is %r' % (a, rid, None if conn is None else conn.state))
+        if rid not in nd.ro_connected:
+            self.detected = True
+        return r
+
     def pings(self):
-        for a in self.names:
+        for a in self.all_names:
             for b in sorted(self.nodes[a].members):
                 self.send(a, b)
+        for a in self.names:
+            for rid in sorted(self.nodes[a].ro_connected):
+                self.send_ro(a, rid)
 
 
 OPS = ['tick', 'tick', 'tick', 'advance', 'advance', 'ping', 'refuse', 'bhnext', 'reset', 'blackhole', 'vanish', 'restart', 'partition', 'heal', 'drop', 'add', 'round', 'round', 'lateclose', 'lateclose', 'stalemacro']
@@ -191,7 +256,7 @@ OPS = ['tick', 'tick', 'tick', 'advance', 'advance', 'ping', 'refuse', 'bhnext',
 def strategy(tier):
     step = st.tuples(st.integers(0, len(OPS) - 1), st.integers(0, 7), st.integers(0, 7)).map(list)
     return st.fixed_dictionaries({
-        'n': st.integers(2, 4), 'keepalive': st.booleans(), 'retry': st.sampled_from([0.0, 0.5, 5.0]),
+        'n': st.integers(2, 4), 'ro': st.sampled_from([0, 0, 1, 2]), 'keepalive': st.booleans(), 'retry': st.sampled_from([0.0, 0.5, 5.0]),
         'rbuf': st.sampled_from([8192, 8192, 64, 5]),       # small receive buffers: a frame is read in many pieces, faults hit the middle of frames
         'steps': st.integers(1, 120 if tier == 'quick' else 200).flatmap(lambda n: st.lists(step, min_size=n, max_size=n)),
     })
@@ -201,19 +266,20 @@ def run_case(case):
     h = Harness(case)
     kern = h.kern
     names = h.names
+    allp = h.all_names          # voters followed by read-only processes (equal to names in cases without read-only nodes)
     classes = set()
     trace = []
     down = {}
     try:
         for _ in range(3):
-            for n in names:
+            for n in allp:
                 h.tick(n)
         for s in case['steps']:
             if h.viol:
                 break
             op = OPS[s[0] % len(OPS)]
             a, b = s[1], s[2]
-            name = names[a % len(names)]
+            name = allp[a % len(allp)]
             if op == 'tick':
                 h.tick(name)
             elif op == 'advance':
@@ -222,7 +288,7 @@ def run_case(case):
                 h.pings()
             elif op == 'round':
                 kern.advance(0.1)
-                for n in names:
+                for n in allp:
                     h.tick(n)
                 h.pings()
             elif op == 'refuse':
@@ -290,7 +356,7 @@ def run_case(case):
                 kern.down.discard(name)
                 nd.start()
             elif op == 'partition':
-                x, y = names[a % len(names)], names[b % len(names)]
+                x, y = allp[a % len(allp)], names[b % len(names)]
                 if x != y:
                     kern.partitioned.add(frozenset((x, y)))
                     for c in kern.connections():
@@ -301,7 +367,7 @@ def run_case(case):
                 kern.partitioned = set()
             elif op == 'drop':
                 from pysyncobj.node import TCPNode
-                x, y = names[a % len(names)], names[b % len(names)]
+                x, y = allp[a % len(allp)], names[b % len(names)]
                 if x != y and y in h.nodes[x].members and h.nodes[x].alive:
                     h.nodes[x].members.discard(y)
                     h.nodes[x].connected.discard(y)
@@ -309,7 +375,7 @@ def run_case(case):
                     classes.add('dropNode')
             elif op == 'add':
                 from pysyncobj.node import TCPNode
-                x, y = names[a % len(names)], names[b % len(names)]
+                x, y = allp[a % len(allp)], names[b % len(names)]
                 if x != y and y not in h.nodes[x].members and h.nodes[x].alive:
                     h.nodes[x].members.add(y)
                     h.call(x, h.nodes[x].tr.addNode, TCPNode(h.addr[y]))
@@ -321,7 +387,7 @@ def run_case(case):
             kern.partitioned = set()
             kern.connect_plan = []
             from pysyncobj.node import TCPNode
-            for n in names:
+            for n in allp:
                 nd = h.nodes[n]
                 kern.down.discard(n)
                 if not nd.alive:
@@ -335,42 +401,56 @@ def run_case(case):
             ok = False
             while kern.clock.now() < t_end and not h.viol:
                 kern.advance(0.1)
-                for n in names:
+                for n in allp:
                     h.tick(n)
                 h.pings()
-                if all(h.nodes[n].connected == set(m for m in names if m != n) for n in names) and check_pairs(h) is None:
+                if all(h.nodes[n].connected == set(m for m in names if m != n) for n in allp) and check_pairs(h) is None and check_ro(h) is None:
                     ok = True
                     break
             if not h.viol:
                 if not ok:
                     h.V('not-reconnected-within-bound', 'after %.0f virtual seconds without faults: told-connected %r; kernel/maps: %s' % (
-                        bound, dict((n, sorted(h.nodes[n].connected)) for n in names), check_pairs(h)))
+                        bound, dict((n, sorted(h.nodes[n].connected)) for n in allp), check_pairs(h) or check_ro(h)))
                 else:
                     # probes each way: delivered exactly once, attributed to the sender
-                    for a in names:
+                    for a in allp:
                         for b in names:
                             if a != b:
                                 r = h.send(a, b, probe=1)
                                 if r is not True:
                                     h.V('send-false-on-established-connection', '%s.send(%s) returned %r although both sides report connected' % (a, b, r))
+                    # every voter -> every read-only peer it knows (the id is bound to a process by the messages that arrived under it)
+                    for a in names:
+                        for rid in sorted(h.nodes[a].ro_connected):
+                            r = h.send_ro(a, rid, probe=1)
+                            if r is not True:
+                                h.V('send-false-on-established-connection', '%s.send(read-only id %s) returned %r although it is announced as connected' % (a, rid, r))
                     for _ in range(3):
                         kern.advance(0.1)
-                        for n in names:
+                        for n in allp:
                             h.tick(n)
-                    for a in names:
+                    for a in allp:
                         for b in names:
                             if a != b and h.probes_got[(a, b, 1)] != 1 and not h.viol:
                                 h.V('probe-not-delivered-once', 'probe %s->%s delivered %d times' % (a, b, h.probes_got[(a, b, 1)]))
+                    for a in names:
+                        for b in h.ro_names:
+                            if h.probes_got[(a, b, 1)] != 1 and not h.viol:
+                                h.V('probe-not-delivered-once', 'probe %s->%s (read-only) delivered %d times' % (a, b, h.probes_got[(a, b, 1)]))
         if h.stale_replaced:
             classes.add('stale-connection-replaced')
         if h.detected or kern.stats.get('keepalive_timeouts'):
             classes.add('dead-connection-detected')
         nontrivial = h.stale_replaced or h.detected or bool(kern.stats.get('keepalive_timeouts'))
         classes.add('keepalive' if h.keepalive else 'no-keepalive')
+        if h.ro_names:
+            classes.add('read-only-nodes')
+            if h.counters['readonly-disconnected']:
+                classes.add('read-only-node-reconnected')
         return Result(nontrivial=nontrivial, classes=sorted(classes), violation=h.viol[0] if h.viol else None,
-                      sample={'n': case['n'], 'keepalive': case['keepalive'], 'retry': case['retry'], 'steps': trace[:30]})
+                      sample={'n': case['n'], 'ro': case.get('ro', 0), 'keepalive': case['keepalive'], 'retry': case['retry'], 'steps': trace[:30]})
     finally:
-        for n in names:
+        for n in allp:
             nd = h.nodes[n]
             if nd.alive:
                 try:
@@ -398,6 +478,31 @@ def check_pairs(h):
                 sock = est[0] if est[0].proc == x else est[0].peer
                 if conn.fileno() != sock.fd:
                     return '%s\'s connection object for %s uses fd %r, the established kernel connection is fd %d' % (x, y, conn.fileno(), sock.fd)
+    return None
+
+
+def check_ro(h):
+    """None if every read-only process has exactly one established connection to every voter, which the voter announced under
+    exactly one id (bound to that process by the messages that arrived under it), and no other read-only id is still announced."""
+    from pysyncobj.node import TCPNode
+    from pysyncobj.tcp_connection import CONNECTION_STATE
+    conns = h.kern.connections()
+    for v in h.names:
+        nd = h.nodes[v]
+        bound = sorted(nd.ro_ids.get(i) or '?' for i in nd.ro_connected)
+        if bound != sorted(h.ro_names):
+            return '%s has read-only ids %r announced (bound to %r), the read-only processes are %r' % (v, sorted(nd.ro_connected), bound, h.ro_names)
+        for rid, node in nd.ro_connected.items():
+            r = nd.ro_ids[rid]
+            est = [c for c in conns if c.proc == r and c.peer.proc == v and not c.blackholed and not c.half_open and not c.err and not c.peer.err]
+            if len(est) != 1:
+                return 'read-only %s has %d established kernel connections to %s' % (r, len(est), v)
+            conn = nd.tr._connections.get(node)
+            if conn is None or conn.state != CONNECTION_STATE.CONNECTED or conn.fileno() != est[0].peer.fd:
+                return '%s\'s connection object for read-only id %s is not the established kernel connection' % (v, rid)
+            rc = h.nodes[r].tr._connections.get(TCPNode(h.addr[v]))
+            if rc is None or rc.state != CONNECTION_STATE.CONNECTED or rc.fileno() != est[0].fd:
+                return 'read-only %s\'s connection object for %s is not the established kernel connection' % (r, v)
     return None
 
 
